@@ -111,6 +111,13 @@ SCENARIOS = [
 ]
 
 
+# call_closure / return_impl translated from vm.rs on every run (Props/FnsTie/CallReturn): wrong arity and exhausted call depth are handed to the
+# exception machinery and push no frame; a call saves the resume point and pushes a frame at the callee; Return cuts the stack to the frame's base,
+# puts the result there and resumes the caller ("calls are atomic"); the last Return of a called fiber hands the result to the caller
+THEOREM_MODULES.append("Yarel.Props.FnsTie.CallReturn")
+REQUIRED_THEOREMS += ['call_wrong_arity', 'call_effect']
+
+
 def arity_scenarios():
     """A callable that declares n parameters is called with k != n arguments through every route a call can take (method invoked on the
     instance, method value, bound method kept in a field / a map / a module-level variable, static method, constructor, super call,
